@@ -96,24 +96,6 @@ theorem C03_run_pending_kill_loop (cfg : List Watcher) (behavs : List Behav) (wa
   have h := hp.ok (C03_run_signal_invariant cfg behavs warm hcfg ops)
   exact ⟨h.pos, h.le, h.obj, h.stopping, h.began⟩
 
-theorem countP_le_one_unique {α : Type} (l : List α) (q : α → Bool) (h : l.countP q ≤ 1) {a b : α}
-    (ha : a ∈ l) (hb : b ∈ l) (hqa : q a = true) (hqb : q b = true) : a = b := by
-  induction l with
-  | nil => cases ha
-  | cons x xs ih =>
-    simp only [List.countP_cons] at h
-    rcases List.mem_cons.mp ha with rfl | ha'
-    · rcases List.mem_cons.mp hb with rfl | hb'
-      · rfl
-      · have : 0 < xs.countP q := List.countP_pos_iff.mpr ⟨b, hb', hqb⟩
-        simp only [hqa, if_true] at h
-        omega
-    · rcases List.mem_cons.mp hb with rfl | hb'
-      · have : 0 < xs.countP q := List.countP_pos_iff.mpr ⟨a, ha', hqa⟩
-        simp only [hqb, if_true] at h
-        omega
-      · exact ih (by split at h <;> omega) ha' hb'
-
 /-- **at most one kill loop per pid**: in every reachable state the kill loops pending for a pid
     number at most one; in particular two suspended `killWait` frames for the same pid are the same
     frame, and a pid with a suspended loop has none queued. -/
@@ -164,48 +146,6 @@ theorem C03_run_escalation_preceded_by_stop_signal (cfg : List Watcher) (behavs 
 /-- the escalation sends nothing to a pid its watcher does not list (`send_signal` returns at once) -/
 theorem C03_escalation_nothing_to_unlisted (u p sg : Nat) (s : State) (h : ¬ Listed s u p) :
     sendSignal u p sg s = (true, s) := sendSignal_unlisted u p sg s h
-
-theorem emit_blocked (o : Obs) (s : State) (h : s.blocked = true) : (emit o s).2 = s := by
-  simp [emit, modS, h]
-
-theorem emitEv_blocked (w t : String) (p : Option Nat) (x : String) (s : State) (h : s.blocked = true) :
-    (emitEv w t p x s).2 = s := by
-  simp [emitEv, modS, h]
-
-theorem blockedLeafS (l : List Obs) : LeafS (fun s => s.blocked = true ∧ s.log = l) where
-  emit := fun o _ _ s h => by
-    show (emit o s).2.blocked = true ∧ (emit o s).2.log = l
-    rw [emit_blocked o s h.1]; exact h
-  kKillN := fun p sg via _ s h => by
-    show (kKill p sg via s).2.blocked = true ∧ (kKill p sg via s).2.log = l
-    simp only [kKill, bind, pure]
-    rw [emit_blocked _ _ (by exact h.1)]
-    exact h
-  kKill9 := fun p s h => by
-    show (kKill p 9 "" s).2.blocked = true ∧ (kKill p 9 "" s).2.log = l
-    simp only [kKill, bind, pure]
-    rw [emit_blocked _ _ (by exact h.1)]
-    exact h
-  kWaitpid := fun pid s h => by
-    show (kWaitpid pid s).2.blocked = true ∧ (kWaitpid pid s).2.log = l
-    simp only [kWaitpid, bind, pure]
-    cases (runK (fun k => k.waitpid pid) s).1 with
-    | echild => exact h
-    | none => exact h
-    | got q st =>
-      simp only
-      rw [emit_blocked _ _ (by exact h.1)]
-      exact h
-  kStateOf := fun pid s h => h
-  kChildren := fun pid r s h => h
-  kSleep := fun ms s h => h
-  emitEv := fun w t p x s h => by
-    show (emitEv w t p x s).2.blocked = true ∧ (emitEv w t p x s).2.log = l
-    rw [emitEv_blocked w t p x s h.1]; exact h
-  popPid := fun u p s h => h
-  bumpHook := fun u hn i s h => h
-  setRc := fun p rc s h => h
-  markBlocked := fun s h => ⟨rfl, h.2⟩
 
 /-- … nothing at all is logged once the daemon hangs … -/
 theorem C03_escalation_nothing_when_hanging (u p sg : Nat) (r : Bool) (s : State) (h : s.blocked = true) :
@@ -264,23 +204,6 @@ theorem C03_run_no_sigkill_to_reaped (cfg : List Watcher) (behavs : List Behav) 
   (C03_escalation_nothing_when_gone u p sg r _ (C03_run_reaped_is_gone cfg behavs warm hcfg ops p st hr)).2
 
 /-! ## the log: a SIGKILL is never the first signal the daemon sends a worker of its own accord -/
-
-theorem assignUids_stopSignal (cfg : List Watcher) (n : Nat) (w : Watcher) (hw : w ∈ assignUids cfg n) :
-    ∃ w0 ∈ cfg, w0.stopSignal = w.stopSignal := by
-  induction cfg generalizing n with
-  | nil => cases hw
-  | cons x xs ih =>
-    simp only [assignUids, List.mem_cons] at hw
-    rcases hw with rfl | hw
-    · exact ⟨x, List.mem_cons_self, rfl⟩
-    · obtain ⟨w0, hw0, h⟩ := ih (n + 1) hw
-      exact ⟨w0, List.mem_cons_of_mem _ hw0, h⟩
-
-theorem run_si_j {J : JMode} (s : State) (ops : List Op) (hsafe : ∀ op ∈ ops, OpSafe op) (h : SI J s) : SI J (run s ops) := by
-  induction ops generalizing s with
-  | nil => exact h
-  | cons o os ih =>
-    exact ih _ (fun op hop => hsafe op (List.mem_cons_of_mem _ hop)) (stepM_si_j o (hsafe o List.mem_cons_self) s h)
 
 /-- **SIGKILL is never the first signal — one step, after any history**: let `s` be any reachable state
     (reached through any requests whatsoever) and `op` any stimulus that does not itself bring signal 9 in
@@ -416,6 +339,27 @@ theorem loopAt_pending {s : State} {u p sig i polls : Nat} (h : loopAt s u p sig
 -- the hypotheses of the run-level theorems hold in that run (non-vacuity)
 example : PendingLoop (run (initState c03Cfg [{ term := none }] 0) c03Pre) 1 100 15 1 2 :=
   loopAt_pending (s := c03Run []) (by decide +kernel)
+
+theorem not_goneIn_of_state {k : Kernel} {p : Nat} {st : PState} (h : (k.find p).map (·.st) = some st) (hst : st ≠ .gone) :
+    ¬ k.GoneIn p := by
+  rintro ⟨kp, hf, hg⟩
+  rw [hf] at h
+  simp only [Option.map_some, Option.some.injEq] at h
+  rw [hg] at h
+  exact hst h.symm
+
+-- the hypotheses of `C03_run_escalation_preceded_by_stop_signal` hold for that loop: listed, no hang, not gone
+example : Listed (c03Run []) 1 100 ∧ (c03Run []).blocked = false ∧ ¬ (c03Run []).k.GoneIn 100 :=
+  ⟨by unfold Listed; decide +kernel, by decide +kernel,
+   not_goneIn_of_state (st := .run) (by decide +kernel) (by decide)⟩
+
+-- … those of `C03_run_no_sigkill_to_reaped` after the escalation: the pid has been collected
+example : (c03Run [.wake, .wake]).log.any (fun o => match o with | .reap 100 9 => true | _ => false) = true := by
+  decide +kernel
+
+-- … and the worker has its `Process` object (`C03_run_workers_are_daemon_children`, `…_to_worker_…`)
+example : HasObj (c03Run []) 100 ∧ ((c03Run []).k.find 100).map (·.ppid) = some (some 0) :=
+  ⟨by unfold HasObj; decide +kernel, by decide +kernel⟩
 
 /-- a watcher whose `before_signal` hook vetoes every signal it may veto -/
 def c03Veto : List Watcher :=
